@@ -295,12 +295,13 @@ where
             } => {
                 match future.as_mut().poll(cx) {
                     Poll::Ready(result) => {
-                        // Notify all waiters
+                        // Notify all waiters. Clone before taking the key: taking it
+                        // disarms `Drop`, and a panicking `Clone` must still release it.
+                        let result_clone = match &result {
+                            Ok(res) => Ok(res.clone()),
+                            Err(e) => Err(e.clone()),
+                        };
                         if let Some(k) = key.take() {
-                            let result_clone = match &result {
-                                Ok(res) => Ok(res.clone()),
-                                Err(e) => Err(e.clone()),
-                            };
                             in_flight.complete(&k, result_clone);
                         }
                         Poll::Ready(result.map_err(CoalesceError::Service))
